@@ -46,7 +46,7 @@ type unzipCase struct {
 }
 
 var goodNames = []string{"x.go", "y.go", "go.mod", "LICENSE", "README.md", "a/x.go", "a/b/y.go", "a/b/c/z.go", "vendor/x/y.go", "é.go", "a b.txt", ".hidden", "cmd/tool/main.go", "z", "sub/x.go", "deep/er/still/f.go"}
-var badNames = []string{"..", "../x", "../../x", "../../../escape.txt", "a/../../x", "a/../b", "/abs", "/etc/passwd", "a\\b", "..\\x", "", ".", "./x", "a/", "a//b", "a/./b", "con", "aux.go", "NUL/x", "a~1", "f|g", "f:g", "trailing.", "x.go/", "x.go/child", "A/x.go", "a/X.GO", "README.MD", "readme.md", "GO.MOD", "Go.mod", "sub/go.mod", "a/GO.MOD", "a/b/go.mod", "deep/er/still/go.mod", "a/b/c/Go.Mod", "go.mod/x", "x\x00y", "\xff", "K.go", "k.go", "ﬀ", "ff", "a/b/", "a/b", "a", "LICENSE/", "deep/", "deep/er"}
+var badNames = []string{"..", "../x", "../../x", "../../../escape.txt", "a/../../x", "a/../b", "/abs", "/etc/passwd", "a\\b", "..\\x", "", ".", "./x", "a/", "a//b", "a/./b", "con", "aux.go", "NUL/x", "a~1", "f|g", "f:g", "trailing.", "x.go/", "x.go/child", "A/x.go", "a/X.GO", "README.MD", "readme.md", "GO.MOD", "Go.mod", "sub/go.mod", "a/GO.MOD", "a/b/go.mod", "deep/er/still/go.mod", "a/b/c/Go.Mod", "go.mod/x", "x\x00y", "\xff", "K.go", "k.go", "\u212a/x.go", "\u212a", "k/y.go", "k", "\u017f/x.go", "s", "S/z.go", "\u212b/q", "\u00e5", "ﬀ", "ff", "a/b/", "a/b", "a", "LICENSE/", "deep/", "deep/er"}
 var prefixes = []string{"GOOD", "GOOD", "GOOD", "GOOD", "GOOD", "GOOD", "GOOD", "GOOD", "", "UPPER", "OTHERVERSION", "NOSLASH", "OTHERPATH", "DOUBLE"}
 
 var ids = [][2]string{{"example.com/m", "v1.0.0"}, {"example.com/m", "v1.0.0"}, {"example.com/Mixed/Case", "v0.1.0"}, {"example.com/m/v2", "v2.0.0"}, {"gopkg.in/yaml.v2", "v2.4.0"}}
